@@ -411,16 +411,14 @@ func c17r3(c *core.Ctx) {
 	}
 	// dump writes every field; values that are slices of pool memory are copies
 	written := map[string]ast.Expr{}
-	core.InspectNoLits(dump.Body, func(n ast.Node) bool {
-		if cl, ok := n.(*ast.CompositeLit); ok && core.NamedName(m.Info.TypeOf(cl)) == "EntityDump" {
-			for _, e := range cl.Elts {
-				if kv, ok := e.(*ast.KeyValueExpr); ok {
-					written[kv.Key.(*ast.Ident).Name] = kv.Value
-				}
-			}
+	for _, cn := range constructionsOf(m, dump) {
+		if cn.typ != "EntityDump" {
+			continue
 		}
-		return true
-	})
+		for k, v := range cn.fields {
+			written[k[strings.LastIndexByte(k, '.')+1:]] = v
+		}
+	}
 	read := map[string]bool{}
 	core.InspectNoLits(load.Body, func(n ast.Node) bool {
 		if sel, ok := n.(*ast.SelectorExpr); ok {
